@@ -40,6 +40,7 @@ inductive Err where
   | invalidName   -- InvalidName
   | bulk          -- BulkWriteError (details carried separately)
   | other
+  | unmodelled    -- not a Python error: the model does not express this behaviour (outside F)
   deriving Repr, DecidableEq, Inhabited
 
 def Err.name : Err → String
@@ -48,6 +49,7 @@ def Err.name : Err → String
   | .keyErr => "KeyError" | .indexErr => "IndexError" | .attrErr => "AttributeError"
   | .invalidOp => "InvalidOperation" | .collInvalid => "CollectionInvalid"
   | .invalidName => "InvalidName" | .bulk => "BulkWriteError" | .other => "Error"
+  | .unmodelled => "?unmodelled"
 
 /-- `isinstance(e, WriteError)`: DuplicateKeyError is a subclass. -/
 def Err.isWriteError : Err → Bool
